@@ -42,6 +42,7 @@ fn main() {
         }
         i += 2;
     }
+    c20::try_req();
     let gs = c20::groups();
     let mut reports = Vec::new();
     for (k, g) in gs.iter().enumerate() {
